@@ -4,12 +4,15 @@ import (
 	"encoding/json"
 	"fmt"
 	"math/big"
+	"os"
 	"sort"
 	"strings"
+	"time"
 
 	"github.com/corestario/kyber"
 	prysmBLS "github.com/prysmaticlabs/prysm/v3/crypto/bls"
 
+	"github.com/lidofinance/dc4bc/client/api/dto"
 	"github.com/lidofinance/dc4bc/client/services/node"
 	ctypes "github.com/lidofinance/dc4bc/client/types"
 	"github.com/lidofinance/dc4bc/fsm/state_machines"
@@ -218,7 +221,7 @@ func scenarioC01(c *Ctx) {
 			continue
 		}
 		groupKey := krs[cl.Round].PubPoly.Commit()
-		batches := 2
+		batches := 3
 		for b := 0; b < batches; b++ {
 			tasks := []requests.SigningTask{{MessageID: fmt.Sprintf("doc-%d-a", b), File: "a.txt", Payload: []byte(fmt.Sprintf("document %d a", b))},
 				{MessageID: fmt.Sprintf("doc-%d-b", b), File: "b b.txt", Payload: []byte(fmt.Sprintf("document %d b", b))}}
@@ -229,7 +232,19 @@ func scenarioC01(c *Ctx) {
 			for _, i := range perm[:cf.t] {
 				answer[i] = true
 			}
-			cl.RunToQuiescence(func(cands []int) int { return c.Rng.Intn(len(cands)) }, func(i int, o *ctypes.Operation) bool { return answer[i] })
+			if b < 2 {
+				cl.RunToQuiescence(func(cands []int) int { return c.Rng.Intn(len(cands)) }, func(i int, o *ctypes.Operation) bool { return answer[i] })
+			} else {
+				// the third batch is signed in the SECOND WEEK after the key generation: the answers carry
+				// a creation time eight days later (a key is used for months; no deadline ends its life)
+				cl.RunToQuiescenceWith(func(cands []int) int { return c.Rng.Intn(len(cands)) }, func(i int, o *ctypes.Operation) (bool, error) {
+					if !answer[i] {
+						return false, nil
+					}
+					_, err := answerShifted(cl, i, o, 8*24*time.Hour)
+					return true, err
+				})
+			}
 			var ref map[string]string
 			for i := range cl.Nodes {
 				got := cl.StoredSignatures(i, fmt.Sprintf("batch-%d", b))
@@ -262,4 +277,35 @@ func scenarioC01(c *Ctx) {
 		cl.Close()
 	}
 	c.Notes["recoveries"] = recoveries
+}
+
+// answerShifted: the machine answers the operation; before the result goes to the node the creation
+// time inside every result message is moved by `shift` (as if the operator had signed that much later).
+func answerShifted(cl *Cluster, i int, o *ctypes.Operation, shift time.Duration) (*ctypes.Operation, error) {
+	path, err := cl.Machines[i].ProcessOperation(*o, true)
+	if err != nil {
+		return nil, err
+	}
+	bz, err := os.ReadFile(path)
+	if err != nil {
+		return nil, err
+	}
+	var res ctypes.Operation
+	if err := json.Unmarshal(bz, &res); err != nil {
+		return nil, err
+	}
+	for k := range res.ResultMsgs {
+		var m map[string]interface{}
+		if json.Unmarshal(res.ResultMsgs[k].Data, &m) != nil {
+			continue
+		}
+		if s, ok := m["CreatedAt"].(string); ok {
+			if t, err := time.Parse(time.RFC3339Nano, s); err == nil {
+				m["CreatedAt"] = t.Add(shift)
+				res.ResultMsgs[k].Data, _ = json.Marshal(m)
+			}
+		}
+	}
+	return &res, cl.Nodes[i].Node.ProcessOperation(&dto.OperationDTO{ID: res.ID, Type: string(res.Type), Payload: res.Payload, ResultMsgs: res.ResultMsgs,
+		CreatedAt: res.CreatedAt, DkgID: res.DKGIdentifier, To: res.To, Event: res.Event, ExtraData: res.ExtraData})
 }
